@@ -60,6 +60,7 @@ func judgeScenario(r *core.Run, c *Case, out *sims.Outcome) {
 	}
 	if out.Panic != nil {
 		r.Count("panicked", 1)
+		r.Violation("panicked-instead-of-results:"+c.Sc.Entry, c.Sc.Desc()+": the check panicked: "+out.Panic.Value, c)
 		return
 	}
 	msgs := mon.Shape(out.Chain, out.Results, out.Err, true, c.Sc.Entry == "ocsp", sims.IsInvalidChain(out.Err))
